@@ -1,6 +1,6 @@
 ------------------------------- MODULE MC_C04 -------------------------------
 (* Bounded design model for C04.  One behaviour = one delivery of one file:                  *)
-(*   case c = [n, kind, name, hl, fam]  size class (B is the model's block size; gamma maps   *)
+(*   case c = [n, kind, name, hl, fam, plen, prev, via]  size class (B is the model's block size; gamma maps   *)
 (*           q*B+r to q*4096+r), content class (label for gamma), name class (a row of the    *)
 (*           configured MIME tables, MC_C04_Data), handler list ("default", "full", and       *)
 (*           "altenc" = default handlers under a second configuration of the tables),         *)
@@ -14,6 +14,8 @@
 EXTENDS Deliver, MC_C04_Data, TLC
 
 CONSTANTS B, Schedules, Kinds, Fams, Lists,
+          LineCap,            \* longest request line the connection handler reads ("none" = unbounded, as pinned)
+          LongOn, HistOn,     \* include the path-length slice / the history slice of the case space
           DecSizeStored,      \* CompressedFileHandler leaves entry.size = size of the COMPRESSED file (as pinned)
           Known               \* ids of recorded defects
 
@@ -24,9 +26,23 @@ ProtoOf(f) == CASE f \in {"G", "Gs"} -> "G" [] f \in {"GP", "GPs"} -> "GP" [] f 
                 [] f = "W" -> "W" [] f = "GEM" -> "GEM" [] f = "SP" -> "SP"
 NullFrame == [headers |-> <<>>, len |-> NoLen, body |-> <<>>]
 
+\* A case also says how long the file's PATH is (plen) and which other name was requested (via = "fetch")
+\* or listed (via = "list") just before IN THE SAME SERVER PROCESS (prev; "none" = nothing before).
 \* the alternative table configuration ("altenc") varies the TABLES, not the delivery: two sizes, one content class
-Cases == {x \in [n : SizeClasses(B), kind : Kinds, name : Names, hl : Lists, fam : Fams] :
-             x.hl = "altenc" => (x.n \in {1, B + 1} /\ x.kind = "bin")}
+BaseCases == {[n |-> x.n, kind |-> x.kind, name |-> x.name, hl |-> x.hl, fam |-> x.fam, plen |-> "p0", prev |-> "none", via |-> "none"] :
+                 x \in {y \in [n : SizeClasses(B), kind : Kinds, name : Names, hl : Lists, fam : Fams] :
+                            y.hl = "altenc" => (y.n \in {1, B + 1} /\ y.kind = "bin")}}
+\* path length varies the REQUEST LINE, not the delivery: one size, one content class, every family
+LongCases == IF ~LongOn THEN {} ELSE
+             {[n |-> B + 1, kind |-> "text", name |-> nm, hl |-> "default", fam |-> f, plen |-> p, prev |-> "none", via |-> "none"] :
+                 nm \in LongNames, f \in Fams, p \in PLens \ {"p0"}}
+\* histories vary what the process served BEFORE: every ordered pair of names, fetched or listed first, and each name alone
+HistCases == IF ~HistOn THEN {} ELSE
+             {[n |-> 1, kind |-> "bin", name |-> nm, hl |-> "default", fam |-> f, plen |-> "p0", prev |-> pv, via |-> v] :
+                 nm \in HistNames, f \in HistFams, pv \in HistNames, v \in {"fetch", "list"}}
+             \cup {[n |-> 1, kind |-> "bin", name |-> nm, hl |-> "default", fam |-> f, plen |-> "p0", prev |-> "none", via |-> "none"] :
+                 nm \in HistNames, f \in HistFams}
+Cases == BaseCases \cup LongCases \cup {x \in HistCases : x.prev # x.name}
 
 Decs(x) == IF x.hl = "full" THEN Decompressors ELSE {}
 IsDec(x) == Decompresses(Row(x.hl, x.name), Decs(x))
@@ -55,6 +71,10 @@ LenTruthful == Done => (LenTruthfulF(fr, ~IsDec(c)) \/ ("declen" \in Known /\ Is
 HeadIsGetHeaders ==
     (Done /\ ProtoOf(c.fam) \in {"H", "W"}) =>
         HeadIsGetHeadersF(Frame(ProtoOf(c.fam), "HEAD", EntryFor(c), BodyFor(c, st.out)), fr)
+\* the whole request line reaches the protocol, however long the path
+Delivered == Done => WholeLine(c.plen, LineCap)
+\* the entry (size, type, encoding) does not depend on what the process served before
+HistoryFree == Done => EntryFor(c) = EntryFor([c EXCEPT !.prev = "none", !.via = "none"])
 TypeTruthful ==
     Done => fr.headers = Headers(ProtoOf(c.fam), [EntryFor(c) EXCEPT !.mime = TableMime(Row(c.hl, c.name), Decs(c))])
 
